@@ -34,8 +34,19 @@
                                awaiters_for_target are routed" over the worker operations. WorkerErr:
                                excluded class is exactly "the client calls resume_process /
                                request_result for a process that is not there / not sleeping / failed".
-   NOW PROVED (phase 4, sys/ProtoRouted.v over the micro-step decomposition sys/ProtoMicro.v), for every
-   schedule and every oracle:
+   NOW PROVED (phase 4, sys/ProtoRouted.v, sys/ProtoErrTok.v over the micro-step decomposition
+   sys/ProtoMicro.v), for every schedule and every oracle:
+     errors_originate (awaiters_get_same_error, global form, NO premise): in every reachable state
+                       every error anywhere — the result of a process, an `awaiting` value, a
+                       ProcessResults / ResultResponse event, an UpdateAwaitResults command, an answer
+                       stored in pending_awaits — is the error some time slice of the schedule
+                       finished with (origin_errs sigma): the protocol never invents or alters an
+                       error.  Corollary single_failure_same_error: when all failing slices fail
+                       with the same e0 (in particular: exactly one process fails on its own), EVERY
+                       failed process — each awaiter, transitively, on every worker — has exactly e0.
+                       With several distinct failures an awaiter of two failing processes keeps the
+                       one written last (see awaiters_get_same_error_partial above): which one is
+                       schedule-dependent, so this is the strongest schedule-independent statement.
      step_never_errs : under the single premise `pid_honest_run` (a boolean on the schedule: the
                        Send / Await action of every Worker::step's oracle names process ids below
                        next_process_id at that moment), run (init nw) sigma is never Fault (EnvErr _).
@@ -44,8 +55,15 @@
                        event is routed including the awaiter of an AwaitAction, the awaiter of every
                        queued QueryAndAwait is routed, every awaiter in awaiters_for_target is routed.
      events_always_routed : the invariant `events_routed` itself in every reachable state.
+     step_faults_only_bad_oracle (sys/ProtoNoErr.v) : under pid_honest_run and a schedule whose client
+                       never calls resume_process (`no_resume`), EVERY Fault of run (init nw) sigma is
+                       BadOracle: no Worker::step and no Environment::step returns Err. In particular
+                       request_result never fails (the GetResult command reaches the worker the process
+                       is routed to behind its Start/Spawn command). The excluded class is exactly
+                       "the client calls resume_process" (for a process that is not there / not
+                       sleeping / failed, or twice).
    Outside this model: the debug panic of F9 (heap accounting, C06; repaired by b6882e1). *)
-From Quiver Require Import sys.Proto sys.ProtoFail sys.ProtoExamples sys.ProtoErrs sys.ProtoRouted.
+From Quiver Require Import sys.Proto sys.ProtoFail sys.ProtoExamples sys.ProtoErrs sys.ProtoMicro sys.ProtoRouted sys.ProtoErrTok sys.ProtoNoErr.
 
 Theorem C15_failure_local : forall p e h hint w w',
   NoDup (map fst (w_procs w)) ->
@@ -160,3 +178,46 @@ Theorem C15_step_never_errs_nonvacuous :
     alookup 0 (w_procs (n_w nd)) = Some pr /\ p_res pr = Some (ROk 6) /\ e_next (s_env s) = 2.
 Proof. exact step_never_errs_applies. Qed.
 Print Assumptions C15_step_never_errs_nonvacuous.
+
+(* ---- phase 4: awaiters_get_same_error as a global invariant *)
+Theorem C15_errors_originate : forall nw sigma s,
+  run (init nw) sigma = Good s ->
+  forall i nd p pr e, nth_error (s_nodes s) i = Some nd -> alookup p (w_procs (n_w nd)) = Some pr ->
+    p_res pr = Some (RErr e) -> In e (origin_errs sigma).
+Proof. exact errors_originate. Qed.
+Print Assumptions C15_errors_originate.
+
+Theorem C15_errors_in_flight_originate : forall nw sigma s,
+  run (init nw) sigma = Good s ->
+  forall i nd, nth_error (s_nodes s) i = Some nd ->
+    (forall a rs t e, In (EResults a rs) (n_evt nd) -> In (t, Some (RErr e)) rs -> In e (origin_errs sigma)) /\
+    (forall a rs t e, In (CUpdate a rs) (n_cmd nd) -> In (t, Some (RErr e)) rs -> In e (origin_errs sigma)).
+Proof. exact errors_in_flight_originate. Qed.
+Print Assumptions C15_errors_in_flight_originate.
+
+Theorem C15_awaiters_get_same_error_single_failure : forall nw sigma s e0,
+  run (init nw) sigma = Good s -> (forall e, In e (origin_errs sigma) -> e = e0) ->
+  forall i nd p pr e, nth_error (s_nodes s) i = Some nd -> alookup p (w_procs (n_w nd)) = Some pr ->
+    p_res pr = Some (RErr e) -> e = e0.
+Proof. exact single_failure_same_error. Qed.
+Print Assumptions C15_awaiters_get_same_error_single_failure.
+
+Theorem C15_single_failure_nonvacuous :
+  origin_errs err_schedule = [7] /\
+  exists s nd0 pr0 nd1 pr1, run (init 2) err_schedule = Good s /\
+    nth_error (s_nodes s) 0 = Some nd0 /\ alookup 0 (w_procs (n_w nd0)) = Some pr0 /\ p_res pr0 = Some (RErr 7) /\
+    nth_error (s_nodes s) 1 = Some nd1 /\ alookup 1 (w_procs (n_w nd1)) = Some pr1 /\ p_res pr1 = Some (RErr 7).
+Proof. exact single_failure_applies. Qed.
+Print Assumptions C15_single_failure_nonvacuous.
+
+(* ---- phase 4: neither Worker::step nor Environment::step returns Err, except for resume_process misuse *)
+Theorem C15_step_faults_only_bad_oracle : forall nw sigma f,
+  pid_honest_run (init nw) sigma = true -> no_resume sigma -> run (init nw) sigma = Fault f -> is_oracle_fault f.
+Proof. exact step_faults_only_bad_oracle. Qed.
+Print Assumptions C15_step_faults_only_bad_oracle.
+
+Theorem C15_step_faults_only_bad_oracle_nonvacuous :
+  pid_honest_run (init 2) getresult_schedule = true /\ no_resume getresult_schedule /\
+  exists s, run (init 2) getresult_schedule = Good s.
+Proof. exact step_faults_only_bad_oracle_applies. Qed.
+Print Assumptions C15_step_faults_only_bad_oracle_nonvacuous.
